@@ -8,7 +8,7 @@
    (golang.org/x/text/language), and the JavaScript backend (node). *)
 From Coq Require Import Permutation.
 (* source tie by translation: the lemmas of these files are obligations of this property *)
-From Soy Require Import Proofs.SourceTieMsg Proofs.SourceTiePo.
+From Soy Require Import Proofs.SourceTieMsg Proofs.SourceTiePo Proofs.SourceTieMsgLoops.
 From Soy Require Import Proofs.MsgIdProofs.
 From Soy Require Import Model.Bytes Model.Outcome Model.Num Model.Values Model.Ast Model.MsgId
   Model.Escape Model.Interp Model.MsgParts Spec.MsgCat Proofs.MsgPartsProofs Proofs.InterpRelProofs Proofs.InterpPosProofs Proofs.MsgCatProofs
@@ -612,24 +612,26 @@ Print Assumptions C11_walk_b_is_walk.
          old ++ text in the buffer variable);
    (Gen) soyjs's visitMsgNode with the same catalogue entry emits exactly the chunks of those statements;
    and the three resulting states are related by [sim] again, so C04's theorems apply to the code that follows.
+   (Since C04's call stage [sim] is relative to a call context: raw text and prints call nothing, so the context without
+   calls over the template's data [denv] -- cc_nocalls denv -- is used.)
    PARTIAL with respect to C04/C11's full statement: flat messages, slots that are core prints or html tags (not
    calls, not prints outside C04's expression subset), values whose text has no NUL and no double quote (C04's [cleanb]), no plural. *)
-Theorem C11_three_sided_translation_partial : forall cf plural_index bd o lv fuel mp id body tr msgs ss,
+Theorem C11_three_sided_translation_partial : forall cf plural_index bd o lv denv, envok denv -> forall fuel mp id body tr msgs ss,
   forallb flat_node body = true -> items_named body tr -> parts_clean (map item_part tr) ->
   bundle_message bd id = Some (new_message [] [msgstr_of tr]) ->
   o_msgs o = Some msgs -> assoc_n id msgs = Some (jparts_of_cmsg (new_message [] [msgstr_of tr])) ->
   Forall2 item_stmt (map (resolve body) tr) ss ->
   forall st je jst old text,
   c_oblig cf = [] -> Forall (fun s => (sdepth s < fuel)%nat) ss -> Forall (fun s => swf lv s = true) ss ->
-  sim cf st je jst old -> lvok lv (j_scope jst) ->
-  stmts_text cf (mode st) (sc_lookup (ctx st)) ss = Some text ->
+  sim cf (cc_nocalls denv) st je jst old -> lvok lv (j_scope jst) ->
+  stmts_text cf denv (mode st) (sc_lookup (ctx st)) ss = Some text ->
   exists st' ws je' jst',
     let js := stmts_js (mode st) (j_buf jst) (j_scope jst) (j_n jst) ss in
     eval_msg plural_index bd (walk_b cf plural_index bd fuel) mp id body st = (Ok tt, st') /\ wrote st st' ws /\ concat_b ws = text
     /\ js_exec_seq je js = Ok je'
     /\ visit_msg o (jwalk o fuel) id body jst = Ok (tt, jst')
     /\ j_out jst' = rev (flat_map (sprint (j_indent jst)) js) ++ j_out jst
-    /\ sim cf st' je' jst' (old ++ text) /\ lvok lv (j_scope jst').
+    /\ sim cf (cc_nocalls denv) st' je' jst' (old ++ text) /\ lvok lv (j_scope jst').
 Proof. exact three_sided_translation. Qed.
 Print Assumptions C11_three_sided_translation_partial.
 
@@ -653,7 +655,7 @@ Example ex3_three_sided :
   forallb flat_node ex3_body = true /\ msgstr_of ex3_tr = b "{BREAK}{A_B} -- {X}: hola"
   /\ bundle_message [(9, new_message [] [msgstr_of ex3_tr])] 9 = Some (new_message [] [msgstr_of ex3_tr])
   /\ Forall2 item_stmt (map (resolve ex3_body) ex3_tr) ex3_ss
-  /\ stmts_text ex3_cf 1 ex3_env ex3_ss = Some (b "<br/>1&lt;2 -- 4: hola")
+  /\ stmts_text ex3_cf (fun _ => None) 1 ex3_env ex3_ss = Some (b "<br/>1&lt;2 -- 4: hola")
   /\ (match js_exec_seq {| je_vars := [(b "output", JStr (b "ab")); (b "x_3", JNum 4)]; je_data := JObj [(b "a", JObj [(b "b", JStr (b "1<2"))])] |}
                         (stmts_js 1 (b "output") [[(b "x", b "x_3")]] 3 ex3_ss) with
        | Ok je' => assoc_s (b "output") (je_vars je') | _ => None end) = Some (JStr (b "ab<br/>1&lt;2 -- 4: hola")).
